@@ -116,6 +116,8 @@ def random_param(rng, kind, count_field=False):
             ty, size = rng.choice([TU8, TS8, TBYTE]), 1
         elif r < 0.78:
             ty, size = TFLT, rng.choice([4, 8])
+        elif r < 0.81:
+            ty, size = TSW, rng.choice([1, 2, 3, 4, 8])
         else:
             ty, size = rng.choice([TTRK, TTRK, TTRK, TTRKC, TTRKC, TTRKCC, TTRKMC]), rng.choice([1, 3, 4, 8, 12, 32])
     r = rng.random()
@@ -787,6 +789,16 @@ def gen_empty(L, K, rng):
         g.lines.append("cmpvec 0 3")
         g.lines.append("cmpvec 3 0")
         g.stat("compare-two-empty-vectors")
+        # ... and swapping them: each is the other afterwards, fixed sizes included, and goes on
+        # as such (seeded change C18j: swap left the fixed sizes behind)
+        s0, s3 = g.slots[0], g.slots[3]
+        if (K[2] or K[3] or s0.aid == s3.aid) and rng.random() < 0.7:
+            a0, a3 = s0.aid, s3.aid
+            g.slots[0], g.slots[3] = s3, s0
+            if not K[2]:
+                g.slots[0].aid, g.slots[3].aid = a0, a3
+            g.lines.append("swap 0 3")
+            g.stat("swap-two-empty-vectors")
     # copying the empty vector over another vector - of the same or another capacity, with other
     # fixed sizes and byte budget, holding elements or not (seeded change C18d)
     if rng.random() < 0.5:
@@ -803,7 +815,7 @@ def gen_empty(L, K, rng):
         g.lines.append("copyassign 2 0")
         g.stat("copyassign-from-empty" + ("-same-capacity" if dv.cap == sv.cap else ""))
     # ... and then it behaves like any other vector
-    for s in (0, 1, 2):
+    for s in (0, 1, 2, 3):
         v = g.slots[s]
         if v is None:
             continue
@@ -991,7 +1003,7 @@ def can_assign(L):
 
 
 def can_swap(L):
-    return all(p.kind != VARYING or p.ty not in (TTRK, TTRKC, TBYTE, TTRKMA, TTRKMC) for p in L)
+    return all(p.kind != VARYING or p.ty not in (TTRK, TTRKC, TBYTE, TTRKMA, TTRKMC, TSW) for p in L)
 
 
 def gen_proxy(L, K, rng):
